@@ -5,6 +5,6 @@ CONSTANTS
   MaxNest = 3
   Bug = "none"
   Emit = TRUE
-  Samples = 300
+  Samples = 500
 INVARIANTS InvVisit EmitInv
 CHECK_DEADLOCK FALSE
